@@ -105,9 +105,17 @@ PROP = {
             "Frp.C08.ctls_track_manager", "Frp.C08.visitorConn_user_is_designated",
             "Frp.C08.relogin_closes_replaced", "Frp.C08.natVisit_out_indep", "Frp.C08.nat_refused_leaves_nothing",
             "Frp.C08.flood_refused_leaves_nothing", "Frp.C08.leavesNothingB_sound", "Frp.C08.model_leavesNothing",
+            # §12 allow lists as a class (order, multiplicity, "", "*", exact entries); the list given at registration
+            # is the list visitors are judged by
+            "Frp.C08.allowed_perm_dedup", "Frp.C08.allowed_perm", "Frp.C08.mem_canonAllow", "Frp.C08.allowed_canon",
+            "Frp.C08.allowed_append_self", "Frp.C08.empty_user_allowed_iff", "Frp.C08.allowed_exact",
+            "Frp.C08.unlisted_refused", "Frp.C08.star_anywhere", "Frp.C08.newConn_perm_dedup",
+            "Frp.C08.natVisit_perm_dedup", "Frp.C08.listen_stores", "Frp.C08.register_stores",
+            "Frp.C08.fresh_conn_iff", "Frp.C08.listen_then_conn_iff", "Frp.C08.register_then_visit_iff",
+            "Frp.C08.natListen_then_visit_iff",
         ],
         "engines": [
-            {"name": "visitor", "quick_n": 6000, "thorough_n": 20000, "thorough_seeds": 5,
+            {"name": "visitor", "quick_n": 9000, "thorough_n": 20000, "thorough_seeds": 5,
              "search_n": 4000, "search_seeds": 3,
              "nontrivial": visitor_nontrivial, "result_class": visitor_class},
             # n = visitor scenarios (one real frpc each); a run of 20 takes ~25 s
@@ -134,10 +142,18 @@ PROP = {
                 "floods of 2-41 identical requests handled concurrently: unknown proxy, wrong key, right key with a user "
                 "outside the list, pre-checks, granted ones) the controller's own session table is counted (layer A and, "
                 "through Service.rc, layer B); a request that was not granted must not have made it bigger. "
+                "Allow lists as a class (both layers; through Manager.Listen, Controller.ListenClient and, in layer B, NewProxy "
+                "messages -> server/proxy/{stcp,sudp,xtcp}.go Run incl. the default list): 1-4 names, optionally \"\", * (first, "
+                "in the middle, last), entries equal to another one up to case / white space, near-wildcards (**, al*), some "
+                "entries repeated once or several times (adjacent or apart), the whole permuted; each registered list is probed "
+                "by key-holding visitors of every kind: nobody (no run id / a client that logged in without user), the owner's "
+                "user, every listed entry, entries up to case / white space, unlisted users, * as a user name — NewConn, the "
+                "NAT-hole pre-check and request proper; the predicate (admitted => user in the list GIVEN at registration, or * "
+                "in it) is evaluated on each answer. "
                 "A case is non-trivial when a request is admitted or refused for the key, the user, the run id or a "
                 "closed listener; distinct = distinct (op line, result) pairs. "
                 "xtcp engine: one real frps, one real frpc owning xtcp and stcp proxies (every enc/comp declaration, allow lists "
-                "owner-only / named users / *), and one real frpc PER VISITOR SCENARIO (an XTCPVisitor, optionally an STCPVisitor it "
+                "owner-only / named users / *, entries repeated and permuted), and one real frpc PER VISITOR SCENARIO (user ua/ub/uc or none configured; an XTCPVisitor, optionally an STCPVisitor it "
                 "falls back to), all in-process on loopback; NAT discovery against a STUN responder of the harness, or against a "
                 "socket that never answers (no hole can be prepared: deterministic fallback). Scenario classes: tunnel possible "
                 "(quic and kcp, keepTunnelOpen on/off), tunnel possible but the fallback timeout shorter than a hole takes (either "
@@ -216,7 +232,10 @@ META = {
                 "(stcp, sudp) hands a connection to an owner only if the signature is the proxy's key for the message's "
                 "timestamp and the visitor's user (the login user of the session named by the run id, \"\" for the empty "
                 "run id) is in the allow list or the list contains *; with no list configured the list is exactly the "
-                "owner's user; every other request gets an error and the whole server state is unchanged; over all "
+                "owner's user; what a list means depends only on its set of entries (order and repetitions are irrelevant, "
+                "entries are compared byte for byte, a visitor without user gets in only if \"\" or * is listed), and the "
+                "list given at registration (Listen / ListenClient / NewProxy) is the list a key holder is judged by, in both "
+                "directions; every other request gets an error and the whole server state is unchanged; over all "
                 "histories everything waiting in any accept queue was admitted under the key and list of the entry "
                 "holding it — also for every interleaving of NewConn (held up between its checks and the hand-over) with "
                 "Listen / CloseListener under the manager's lock: the listener a connection is handed to is the one "
